@@ -127,6 +127,21 @@ CLOSURE_KEYS = sorted(DEC)
 STARTERS = [0x61, 0x65, 0x6F, 0x75, 0x41, 0x4F, 0x3B1, 0x3C9, 0x3B9, 0x3B7, 0x438, 0x430, 0x443, 0x456,
             0xE9, 0xE4, 0x1EA1, 0x1A1, 0x1F00, 0x3AC, 0x439, 0x1EBF, 0x212B, 0x1E09]
 MARKS = [0x300, 0x301, 0x302, 0x308, 0x304, 0x306, 0x323, 0x327, 0x328, 0x31B, 0x334, 0x345, 0x313, 0x342]
+# one more mark for every generic canonical combining class that MARKS does not cover yet (classes the shaper does
+# not remap: everything outside Hebrew 10-26, Arabic 27-36, Telugu 84/91, Thai 103/107, Lao 118/122, Tibetan 129-132):
+# two marks of different classes must be reordered, and composed, exactly as canonical equivalence says
+def _class_marks():
+    have = {U.combining(chr(m)) for m in MARKS}
+    remapped = set(range(10, 37)) | {84, 91, 103, 107, 118, 122, 129, 130, 132}
+    out = {}
+    for c in range(0x300, 0x20FF):
+        k = U.combining(chr(c))
+        if k and k not in have and k not in remapped and k not in out and U.category(chr(c)) == "Mn" and not U.decomposition(chr(c)):
+            out[k] = c
+    return [out[k] for k in sorted(out)]
+
+
+CLASS_MARKS = _class_marks()
 # primary composites whose second character is a mark of combining class 0 (Bengali/Oriya/Tamil/... two-part vowels,
 # Myanmar, Balinese ...): (first, second) pairs, from unicodedata
 SS_PAIRS = sorted((a, b) for (a, b) in PRIMARY if U.combining(chr(b)) == 0 and U.category(chr(b)).startswith("M") and U.combining(chr(a)) == 0)[:48]
@@ -192,6 +207,13 @@ def gen_strings(rng, thorough):
         for _ in range(3000):
             k = rng.choice([3, 3, 4, 4, 5])
             texts.append([rng.choice(STARTERS)] + [rng.choice(MARKS) for _ in range(k)])
+    # every ordered pair of marks over all generic combining classes, on a few starters that have composites
+    allm = MARKS + CLASS_MARKS
+    for s in (0x6F, 0x61, 0x3B1, 0x438):
+        for m1 in allm:
+            for m2 in allm:
+                if m1 in CLASS_MARKS or m2 in CLASS_MARKS:
+                    texts.append([s, m1, m2])
     # starter + a composing mark of combining class 0 (two-part vowels, length marks): only adjacency lets them compose
     for (a, b) in SS_PAIRS:
         texts.append([a, b])
